@@ -91,7 +91,7 @@ def monitor_roundtrip(ctx, s: str) -> None:
                     {'name': [ord(c) for c in s], 'encoded': enc.hex()},
                     {'kind': 'encoded_not_printable'})
         return
-    want = 'INBOX' if s.upper() == 'INBOX' else s
+    want = 'INBOX' if s.isascii() and s.upper() == 'INBOX' else s
     printed = bytes(Mailbox(s))
     for tail in (b'', b' (MESSAGES 1)\r\n', b'\r\n'):
         res = guarded(impl_parse, Mailbox, b' ' + printed + tail)
@@ -107,17 +107,17 @@ def monitor_roundtrip(ctx, s: str) -> None:
 def section(ctx) -> None:
     from pymap.parsing.modutf7 import modutf7_encode, modutf7_decode
     from pymap.parsing.specials import Mailbox
-    from .C18_strings import B, impl_parse, sweep, small_strings, mutate, enc_xres, INTERESTING
+    from .C18_strings import B, thin, impl_parse, sweep, small_strings, mutate, enc_xres, INTERESTING
     rng = ctx.rng
     quick = ctx.quick
-    SH = dict(shard=600)
+    SH = dict(shard=1500)
     vals_ = INTERESTING if quick else None
 
     # --- bytes.decode('utf-7') against the state machine of the model
     bases = [b'+AOk-', b'+2D3eAA-x', b'a+-b', b'+AOkA6Q-', b'+AAA', b'+2D0-', b'+3gA-', b'x+AOk y']
     stream = small_strings(b'+-A/,x\xe9', 4 if quick else 5) + sweep(bases, vals_, not quick) \
         + [mutate(rng, rng.choice(bases), b'+-/,AOk26Qg=\x80 ') for _ in range(ctx.scale(300, 8000))]
-    stream = list(dict.fromkeys(stream))
+    stream = thin(ctx, stream, 2500)
     cases = []
     for buf in stream:
         try:
@@ -135,7 +135,7 @@ def section(ctx) -> None:
     stream = small_strings(b'&-A,x', 4 if quick else 6) + sweep(bases, vals_, not quick) \
         + [mutate(rng, rng.choice(bases), b'&-,/+AOk26Qg\x80 ') for _ in range(ctx.scale(500, 8000))] \
         + [modutf7_encode(gen_name(rng)) for _ in range(ctx.scale(200, 3000))]
-    stream = list(dict.fromkeys(stream))
+    stream = thin(ctx, stream, 2000)
     cases, cm = [], []
     hangs = 0
     for buf in stream:
@@ -146,7 +146,7 @@ def section(ctx) -> None:
                         {'input': buf.hex()}, {'kind': 'decode_hang'})
         ctx.count(('decode', buf), nontrivial=r[0] == 'ok')
         cases.append(T.pair(B(buf), enc_xstr(r)))
-        for tail in (b'', b' x'):
+        for tail in ((b'', b' x') if len(cm) < 1000 or not quick else (b'',)):
             m = guarded(impl_parse, Mailbox, buf + tail)
             if m[0] == 'ok':
                 cm.append(T.pair(B(buf + tail),
@@ -169,7 +169,7 @@ def section(ctx) -> None:
         + [a + chr(c) + b for c in (0x9, 0xa, 0xd, 0x26, 0x2d, 0xe9, 0x1F600) for a in ('', 'x', 'é')
            for b in ('', 'y', '&', 'é')] \
         + [gen_name(rng) for _ in range(ctx.scale(400, 12000))]
-    names = list(dict.fromkeys(names))
+    names = thin(ctx, names, 1500)
     cases, keep = [], []
     for s in names:
         ctx.count(('encode', s))
